@@ -80,4 +80,16 @@ array has the documented length iff `k` is that length and every `_values_i` was
 def checkArity (documented : Nat) (returned : List Nat) (p : List Stmt) : Bool :=
   returned == List.range documented && returned.all fun i => (storeSlots p).contains i
 
+def disjointNames (a b : List Name) : Bool := a.all fun x => !b.contains x
+
+/-- executable well-formedness of a loaded model (what `GenValid.ModelWF` states): distinct names,
+no name in two roles, the time symbol is not a model name, one derivative per state -/
+def checkModelWF (m : Model) : Bool :=
+  allDistinct m.assignNames && allDistinct m.stateNames && allDistinct m.paramNames &&
+  disjointNames m.stateNames m.paramNames && disjointNames m.stateNames m.assignNames &&
+  disjointNames m.paramNames m.assignNames &&
+  disjointNames timeNames (m.stateNames ++ m.paramNames ++ m.assignNames) &&
+  allDistinct (m.derivs.map (·.2.1)) && (m.derivs.map (·.2.1)).all m.stateNames.contains &&
+  m.stateNames.all (m.derivs.map (·.2.1)).contains
+
 end Gx
